@@ -98,6 +98,17 @@ def make_classes():
             return MetricPowerResults([{"n": data.count(), "m": data.mean(a) + data.mean(b), "v": data.var(b),
                                         "c": data.cov(a, b)}])
 
+    from tea_tasting.metrics.base import PowerBase
+
+    class PowerPlain(MetricBase, PowerBase):
+        """power analysis that reads the data itself; its answer depends on the requested parameter"""
+        def analyze(self, data, control, treatment, variant):
+            return {"plain": 1}
+
+        def solve_power(self, data, parameter="rel_effect_size"):
+            return MetricPowerResults([{"parameter": parameter, "rows": data.num_rows}])
+
+    make_classes.PowerPlain = PowerPlain
     return Recorder, CustomAggr, CustomGran, PowerOnly
 
 
@@ -175,11 +186,13 @@ def standalone(chk: Check, n):
                          "unused": ["q"] * nrows})
         logs = {}
         metrics = {}
-        k = rng.randint(1, 6) if i % 3 else rng.randint(2, 6)
+        k = rng.randint(1, 6) if i % 3 == 2 else rng.randint(2, 6)
         for j in range(k):
             kind = rng.choice(["mean", "mean_cov", "ratio", "ratio_cov", "sr", "caggr", "cgran", "quantile"])
             if i % 3 == 0 and j < 2:
                 kind = ("ratio", "caggr")[j]      # a pooling metric next to a user-defined one (regression: 412228c)
+            if i % 3 == 1 and j < 2:
+                kind = ("cgran", "quantile")[j]   # two row-level metrics (their columns differ: cs is resampled)
             cs = rng.sample(colnames, 4)
             name = f"m{j}_{kind}"
             if kind == "mean":
@@ -274,6 +287,7 @@ def standalone(chk: Check, n):
                 # a user-defined metric whose POWER analysis works from aggregates although it is not an aggregated
                 # metric for analyze(): it must receive the statistics it declared, whatever else is in the experiment
                 pm2["zz_power_only"] = PowerOnly(rng.sample(colnames, 2))
+                pm2["zz_power_plain"] = make_classes.PowerPlain()
             for k_, v in pm.items():
                 cls = type(v)
                 args = (v.value, v.covariate) if isinstance(v, tt.Mean) else (v.numer, v.denom, v.numer_covariate,
@@ -284,6 +298,12 @@ def standalone(chk: Check, n):
                 pr = pe.solve_power(data, "power")
                 for k_, v in pm2.items():
                     alone = v.solve_power(data, "power")
+                    if isinstance(v, make_classes.PowerPlain):
+                        if list(pr[k_]) != list(alone):
+                            chk.fail("Experiment.solve_power entry of a user-defined (non-aggregated) power metric differs "
+                                     "from its own solve_power for the same parameter",
+                                     dict(input=inp, metric=k_, alone=repr(list(alone)), in_experiment=repr(list(pr[k_]))))
+                        continue
                     if isinstance(v, PowerOnly):
                         if not all(approx(x, y) for x, y in zip(pr[k_][0].values(), alone[0].values())):
                             chk.fail("Experiment.solve_power entry of a user-defined power metric differs from its own "
